@@ -53,7 +53,12 @@ pub fn build_ref(dir: &Path, doc: usize, text: &'static str, cnt: &mut Counters)
         outs.push(o);
     }
     let index = reqs.iter().cloned().enumerate().map(|(i, r)| (r, i)).collect();
-    RefTable { open, reqs, outs, index }
+    RefTable {
+        open,
+        reqs,
+        outs,
+        index,
+    }
 }
 
 /// tables[doc][text index]
@@ -64,10 +69,15 @@ pub struct Tables {
 impl Tables {
     pub fn build(dir: &Path, cnt: &mut Counters) -> Tables {
         let mk = |doc: usize, cnt: &mut Counters| ALPHABET.iter().map(|(_, t)| build_ref(dir, doc, t, cnt)).collect();
-        Tables { t: [mk(0, cnt), mk(1, cnt)] }
+        Tables {
+            t: [mk(0, cnt), mk(1, cnt)],
+        }
     }
     pub fn of(&self, doc: usize, text: &str) -> &RefTable {
-        let i = ALPHABET.iter().position(|(_, t)| *t == text).expect("text of the alphabet");
+        let i = ALPHABET
+            .iter()
+            .position(|(_, t)| *t == text)
+            .expect("text of the alphabet");
         &self.t[doc][i]
     }
 }
@@ -92,7 +102,11 @@ impl Violation {
         Some(Violation {
             key: v["key"].as_str()?.to_string(),
             detail: v["detail"].as_str()?.to_string(),
-            history: v["history"].as_array()?.iter().map(Event::from_json).collect::<Option<Vec<_>>>()?,
+            history: v["history"]
+                .as_array()?
+                .iter()
+                .map(Event::from_json)
+                .collect::<Option<Vec<_>>>()?,
         })
     }
 }
@@ -123,7 +137,11 @@ impl Bag {
     }
     pub fn findings(&mut self, fs: Vec<Finding>, history: &[Event]) {
         for f in fs {
-            self.add(Violation { key: f.key, detail: f.detail, history: history.to_vec() });
+            self.add(Violation {
+                key: f.key,
+                detail: f.detail,
+                history: history.to_vec(),
+            });
         }
     }
 }
@@ -132,7 +150,11 @@ impl Bag {
 pub fn judge_liveness(ev: &Event, out: &Outcome, history: &[Event], bag: &mut Bag) {
     for p in out.panics.iter() {
         let on_main = out.reply.is_none() && Some(p) == out.panics.last();
-        let key = if on_main { format!("server-dies:{}:{}", ev.kind(), p.loc) } else { panic_key(ev.kind(), p) };
+        let key = if on_main {
+            format!("server-dies:{}:{}", ev.kind(), p.loc)
+        } else {
+            panic_key(ev.kind(), p)
+        };
         bag.add(Violation {
             key,
             detail: format!("thread {} panicked at {}: {}", p.thread, p.loc, p.msg),
@@ -152,7 +174,15 @@ pub fn origin_key(ev: &Event, out: &Outcome) -> String {
 /// The text-level oracle: every reply of the reference table of (doc, text) against clauses 3-7,
 /// and clauses 1-2 for the single-request histories `open(doc,text) request`.
 /// Returns the requests whose outcome is a violation (they get follow-ups).
-pub fn check_table(dir: &Path, uris: &[lsp_types::Url; 2], doc: usize, ti: &TextInfo, tab: &RefTable, bag: &mut Bag, cnt: &mut Counters) -> Vec<Req> {
+pub fn check_table(
+    dir: &Path,
+    uris: &[lsp_types::Url; 2],
+    doc: usize,
+    ti: &TextInfo,
+    tab: &RefTable,
+    bag: &mut Bag,
+    cnt: &mut Counters,
+) -> Vec<Req> {
     let open_ev = Event::Open { doc, text: ti.text };
     let h0 = vec![open_ev.clone()];
     judge_liveness(&open_ev, &tab.open, &h0, bag);
@@ -160,7 +190,13 @@ pub fn check_table(dir: &Path, uris: &[lsp_types::Url; 2], doc: usize, ti: &Text
     cnt.evaluations += 1;
     let parser_uri = crate::exec::parser_rs_uri(dir);
     let lookup = |r: &Req| tab.get(r);
-    let cx = Ctx { ti, uri: &uris[doc], parser_uri: &parser_uri, parser_rs: crate::exec::PARSER_RS, lookup: &lookup };
+    let cx = Ctx {
+        ti,
+        uri: &uris[doc],
+        parser_uri: &parser_uri,
+        parser_rs: crate::exec::PARSER_RS,
+        lookup: &lookup,
+    };
     let mut suspicious = vec![];
     for (r, o) in tab.reqs.iter().zip(tab.outs.iter()) {
         let ev = Event::Request { doc, req: r.clone() };
@@ -232,7 +268,15 @@ pub struct HistoryStats {
 /// Executes one notification history on a fresh server, judges its last event (every proper
 /// prefix is a history of its own) and sweeps every request over every open document.
 /// Clause 8: every reply must equal the reply of a fresh server holding only the latest text.
-pub fn run_history(dir: &Path, h: &[Event], tabs: &Tables, full_sweep: bool, bag: &mut Bag, cnt: &mut Counters, st: &mut HistoryStats) {
+pub fn run_history(
+    dir: &Path,
+    h: &[Event],
+    tabs: &Tables,
+    full_sweep: bool,
+    bag: &mut Bag,
+    cnt: &mut Counters,
+    st: &mut HistoryStats,
+) {
     let mut ex = Exec::new(dir);
     let mut tainted: [Option<String>; 2] = [None, None]; // origin key of an unclean open/change per document
     for (i, e) in h.iter().enumerate() {
@@ -245,7 +289,11 @@ pub fn run_history(dir: &Path, h: &[Event], tabs: &Tables, full_sweep: bool, bag
             if let Some(origin) = &tainted[e.doc()] {
                 bag.add(Violation {
                     key: format!("server-dies-after-swallowed-panic:{origin}"),
-                    detail: format!("{} after a swallowed panic: {:?}", e.kind(), o.panics.last().map(|p| (&p.loc, &p.msg))),
+                    detail: format!(
+                        "{} after a swallowed panic: {:?}",
+                        e.kind(),
+                        o.panics.last().map(|p| (&p.loc, &p.msg))
+                    ),
                     history: prefix.to_vec(),
                 });
             } else {
@@ -265,7 +313,12 @@ pub fn run_history(dir: &Path, h: &[Event], tabs: &Tables, full_sweep: bool, bag
                     if !same_outcome(&o, r) {
                         bag.add(Violation {
                             key: format!("not-latest-text:{}:diagnostics", e.kind()),
-                            detail: format!("{} published {} but a fresh server publishes {}", e.kind(), o.to_json(), r.to_json()),
+                            detail: format!(
+                                "{} published {} but a fresh server publishes {}",
+                                e.kind(),
+                                o.to_json(),
+                                r.to_json()
+                            ),
                             history: prefix.to_vec(),
                         });
                     }
@@ -305,7 +358,11 @@ pub fn run_history(dir: &Path, h: &[Event], tabs: &Tables, full_sweep: bool, bag
                 hist.push(ev.clone());
                 bag.add(Violation {
                     key: format!("not-latest-text:{last_kind}:{}", r.kind()),
-                    detail: format!("answered {} but a fresh server holding only the latest text answers {}", o.to_json(), ro.to_json()),
+                    detail: format!(
+                        "answered {} but a fresh server holding only the latest text answers {}",
+                        o.to_json(),
+                        ro.to_json()
+                    ),
                     history: hist,
                 });
             }
@@ -323,16 +380,49 @@ pub fn run_history(dir: &Path, h: &[Event], tabs: &Tables, full_sweep: bool, bag
 
 /// Follow-ups after a step that did not end cleanly: does the server survive the next event?
 /// `base` ends with the suspicious event on document `doc`. Two pacings: at once / after 2 ms.
-pub fn follow_ups(dir: &Path, base: &[Event], doc: usize, text: &'static str, tabs: &Tables, bag: &mut Bag, cnt: &mut Counters) {
+pub fn follow_ups(
+    dir: &Path,
+    base: &[Event],
+    doc: usize,
+    text: &'static str,
+    tabs: &Tables,
+    bag: &mut Bag,
+    cnt: &mut Counters,
+) {
     let other = 1 - doc;
     let valid = ALPHABET[0].1;
     let origin_ev = base.last().unwrap();
     let classes: Vec<(Vec<Event>, Event)> = vec![
-        (vec![], Event::Request { doc, req: Req::Formatting }),
-        (vec![], if matches!(origin_ev, Event::Open { .. }) { Event::Request { doc, req: Req::Hover(0, 0) } } else { origin_ev.clone() }),
+        (
+            vec![],
+            Event::Request {
+                doc,
+                req: Req::Formatting,
+            },
+        ),
+        (
+            vec![],
+            if matches!(origin_ev, Event::Open { .. }) {
+                Event::Request {
+                    doc,
+                    req: Req::Hover(0, 0),
+                }
+            } else {
+                origin_ev.clone()
+            },
+        ),
         (vec![], Event::Change { doc, text }),
         (vec![], Event::Close { doc }),
-        (vec![Event::Open { doc: other, text: valid }], Event::Request { doc: other, req: Req::Formatting }),
+        (
+            vec![Event::Open {
+                doc: other,
+                text: valid,
+            }],
+            Event::Request {
+                doc: other,
+                req: Req::Formatting,
+            },
+        ),
     ];
     for (pre, fu) in classes {
         for sleep in [false, true] {
@@ -372,14 +462,22 @@ pub fn follow_ups(dir: &Path, base: &[Event], doc: usize, text: &'static str, ta
                     tabs.of(*d, t).get(req).cloned()
                 }
                 Event::Change { doc: d, text } => Some(tabs.of(*d, text).open.clone()),
-                _ => Some(Outcome { reply: Some(Reply::Closed), panics: vec![] }),
+                _ => Some(Outcome {
+                    reply: Some(Reply::Closed),
+                    panics: vec![],
+                }),
             };
             let is_repeat = fu == *origin_ev;
             if let Some(exp) = exp {
                 if !same_outcome(&o, &exp) && !(is_repeat && !o.clean()) {
                     bag.add(Violation {
                         key: format!("server-dies-after-swallowed-panic:{}", origin_key(origin_ev, o0)),
-                        detail: format!("the server is still up but {} is answered {} instead of {}", fu.kind(), o.to_json(), exp.to_json()),
+                        detail: format!(
+                            "the server is still up but {} is answered {} instead of {}",
+                            fu.kind(),
+                            o.to_json(),
+                            exp.to_json()
+                        ),
                         history: h,
                     });
                 }
